@@ -52,6 +52,32 @@ def rule_ordefault(ctx, rid, modules, exceptions=None, extra_names=(), least=0):
                 ctx.ob(rid, key, False,
                        f'`{norm(node)[:70]}` tests the truthiness of `{p}`: a legitimate falsy argument (0, 0.0, empty) is replaced by the '
                        f'default although only None means "not given" (use `is None`)', node, m)
+            # the statement form of the same belief: `if not param: param = default` (or `if not param: return/raise`)
+            a = fi.node.args
+            params = {x.arg for x in a.posonlyargs + a.args + a.kwonlyargs}
+            for x in walk_local(fi.node):
+                if not isinstance(x, ast.If):
+                    continue
+                # the loader writes `if not c: A else: B` as `if c: B else: A`: look at both spellings
+                cands = []
+                if isinstance(x.test, ast.UnaryOp) and isinstance(x.test.op, ast.Not) and isinstance(x.test.operand, ast.Name):
+                    cands.append((x.test.operand.id, x.body))
+                if isinstance(x.test, ast.Name) and x.orelse:
+                    cands.append((x.test.id, x.orelse))
+                for pname, branch in cands:
+                    if pname not in params or pname not in names:
+                        continue
+                    rebinds = any(isinstance(y, ast.Assign) and any(isinstance(t, ast.Name) and t.id == pname for t in y.targets) for y in branch)
+                    if not rebinds:
+                        continue
+                    n += 1
+                    key = f'{fi.fq}:if not {pname}'
+                    if key in exceptions:
+                        ctx.ob(rid, key, True, exceptions[key], x, m, nontrivial=False)
+                        continue
+                    ctx.ob(rid, key, False,
+                           f'`if not {pname}: {pname} = ...` replaces every falsy `{pname}` (0, 0.0, empty) by the default although only None '
+                           f'means "not given" (use `is None`)', x, m)
     if least:
         ctx.require(n >= least, rid, f'only {n} `param or default` sites in the zero domain found')
     return n
